@@ -42,6 +42,11 @@ def make_manager_class():
             mw.events.append(rec)
             if mw.on_event is not None:
                 mw.on_event(self, event.name)
+            if mw.raise_events and mw.raises_left > 0 and event.name in mw.raise_events and mw.r.random() < 0.6:
+                # a client handler that fails: the phase this event belongs to raises
+                mw.raises_left -= 1
+                rec["raised"] = True
+                raise ClientHandlerFailed(f"client handler failed on {event.name}")
             d = mw.suspend(event.name)
             if d is not None:
                 rec["suspended"] = d
@@ -91,6 +96,10 @@ def make_manager_class():
     return MonMan
 
 
+class ClientHandlerFailed(Exception):
+    pass
+
+
 class Phase:
     def __init__(self, mode, dur, p=0.0):
         self.mode, self.dur, self.p = mode, dur, p
@@ -120,6 +129,7 @@ class ManWorld:
         self.kw = {"spa_address": address, "spa_identifier": identifier, "spa_name": "Sim Spa"}
         self.phase_log = []
         self.healthy_since = self.w.now
+        self.raise_events, self.raises_left = None, 0  # client handler failures (event names, budget)
         self.on_event = None  # harness callback(man, event_name) at delivery, before any suspension
         self._seq = 0
 
